@@ -20,6 +20,8 @@
 
 const char *verif_harness = "bits_seq";
 using namespace verif;
+// set(pos, val) with an argument that converts to bool - through a template, so that an implementation that only accepts bool gets a bool
+template<typename F, typename V> void set_as(F &f, size_t p, V v) { if constexpr(requires { f.set(p, v); }) f.set(p, v); else f.set(p, (bool)v); }
 
 namespace {
 
@@ -75,9 +77,9 @@ struct BitRunner {
 			case 0: { unsigned long long v = val(); c.op("%s = bitset(%#llx)", w, v); f.~F(); memset((void *)&f, 0xA5, sizeof(F)); new (&f) F(v); r = from_val(v); break; }
 			case 1: { size_t p = t.pick(N); uint32_t fv = t.next(); bool v = fv & 1; unsigned how = (fv >> 1) % 4;
 				// set(pos, val): val is a bool parameter; callers pass flag tests (x & 4), counts and other values that convert to bool
-				if(how == 1) { int iv = v ? (int)(2u << ((fv >> 3) % 20)) : 0; c.op("%s.set(%zu, int %d)", w, p, iv); f.set(p, iv); r.set(p, iv); c.tag("bitset-set-nonbool-value"); }
-				else if(how == 2) { unsigned long long lv = v ? (1ull << (8 + (fv >> 3) % 55)) : 0; c.op("%s.set(%zu, %#llx)", w, p, lv); f.set(p, lv); r.set(p, lv); c.tag("bitset-set-nonbool-value"); }
-				else if(how == 3) { double dv = v ? 0.5 : 0.0; c.op("%s.set(%zu, %g)", w, p, dv); f.set(p, dv); r.set(p, dv); c.tag("bitset-set-nonbool-value"); }
+				if(how == 1) { int iv = v ? (int)(2u << ((fv >> 3) % 20)) : 0; c.op("%s.set(%zu, int %d)", w, p, iv); set_as(f, p, iv); r.set(p, iv); c.tag("bitset-set-nonbool-value"); }
+				else if(how == 2) { unsigned long long lv = v ? (1ull << (8 + (fv >> 3) % 55)) : 0; c.op("%s.set(%zu, %#llx)", w, p, lv); set_as(f, p, lv); r.set(p, lv); c.tag("bitset-set-nonbool-value"); }
+				else if(how == 3) { double dv = v ? 0.5 : 0.0; c.op("%s.set(%zu, %g)", w, p, dv); set_as(f, p, dv); r.set(p, dv); c.tag("bitset-set-nonbool-value"); }
 				else { c.op("%s.set(%zu,%d)", w, p, (int)v); f.set(p, v); r.set(p, v); }
 				break; }
 			case 2: { size_t p = t.pick(N); c.op("%s.reset(%zu)", w, p); f.reset(p); r.reset(p); break; }
